@@ -3,6 +3,9 @@ CLAIMED = {
  "C10": dict(ref="DESIGN.md §3 C10", tq=900, tt=3300,
    text="Seeded simulation of fit/path on all 17 gradient-trained families, plain and mlcl-decorated: the simulator owns every epoch's batch permutation (faithful or adversarial) and the optimiser step (real/identity/scaled); at every BATCH event the delivered rows are identified and the affinity block is compared exactly with the rows/columns of the matrix the run computed; per epoch partition, per fit epoch/step counts, per path validation-block alignment. Sampling, not proof: a clean batch is evidence.",
    note="Trusted: numpy/scikit-learn, exact row matching of continuous data to identify samples, the simulator's own seams (instance-attribute wrappers). Not judged: correctness of the kernel itself (C11), completion of path() (C07)."),
+ "C03": dict(ref="DESIGN.md §3 C03", tq=900, tt=3300,
+   text="Seeded simulation of fit (and short paths) on all 17 gradient-trained families x 13 GEMINI names/instances x solvers x batch sizes, plain and mlcl-decorated, under simulator-owned batch schedules and a buggified optimiser (scaled steps, random teleports far from initialisation). At every judged optimiser step the directions handed to update_params are compared, coordinate by coordinate, with a Richardson-extrapolated central difference of an independent reference GEMINI composed with the model's own forward pass on the batch actually delivered, plus the mlcl term and minus the documented penalty. Numerical: errors under 2% of an array's largest gradient entry, saturated steps and kinks are not decided (counted in the evidence).",
+   note="Trusted: the reference GEMINI definitions in gemsim/refs.py (cross-checked against the library's scores at run time), POT's emd2, the model's own _infer as the forward pass, finite differences with kink/saturation guards."),
 }
 PENDING = {k: "check under construction (DESIGN.md §3); will be claimed when its scenario is committed" for k in
-           ["C03", "C06", "C07", "C08", "C09", "C12", "C14"]}
+           ["C06", "C07", "C08", "C09", "C12", "C14"]}
